@@ -3,6 +3,7 @@ package server
 import (
 	"encoding/json"
 	"log"
+	"reflect"
 	"sync"
 
 	"github.com/cenkalti/rpc2"
@@ -31,6 +32,9 @@ type monitor struct {
 	kind    monitorKind
 	request map[string]*ovsdb.MonitorRequest
 	client  *rpc2.Client
+	// schema of the monitored database, used to complete the rows of
+	// RFC 7047 update notifications
+	schema *ovsdb.DatabaseSchema
 }
 
 type monitorKind int
@@ -165,6 +169,9 @@ func (m *monitor) filter(update database.Update) ovsdb.TableUpdates {
 				}
 				ru.New = filterColumns(ru.New, cols)
 				ru.Old = filterColumns(ru.Old, cols)
+				if ru.Modify() {
+					ru.New = m.completeRow(table, ru.New, cols)
+				}
 				tu[uuid] = ru
 			}
 			return nil
@@ -172,6 +179,36 @@ func (m *monitor) filter(update database.Update) ovsdb.TableUpdates {
 		tus[table] = tu
 	}
 	return tus
+}
+
+// completeRow adds the monitored columns a row lacks because they hold their
+// default value. Rows are built without default valued columns, but the new
+// row of an RFC 7047 update must carry every monitored column: a client has
+// no other way to learn that a column went back to its default.
+func (m *monitor) completeRow(table string, row *ovsdb.Row, columns map[string]bool) *ovsdb.Row {
+	if row == nil || m.schema == nil {
+		return row
+	}
+	tableSchema := m.schema.Table(table)
+	if tableSchema == nil {
+		return row
+	}
+	for name := range columns {
+		if _, ok := (*row)[name]; ok || name == "_uuid" {
+			continue
+		}
+		column := tableSchema.Column(name)
+		if column == nil {
+			continue
+		}
+		native := reflect.Zero(ovsdb.NativeType(column)).Interface()
+		value, err := ovsdb.NativeToOvs(column, native)
+		if err != nil {
+			continue
+		}
+		(*row)[name] = value
+	}
+	return row
 }
 
 func (m *monitor) filter2(update database.Update) ovsdb.TableUpdates2 {
